@@ -516,6 +516,24 @@ def run_cases(seed, lo, hi, extra):
                     st.failures.append({"prop": "C13", "sig": "C13/ignored-only-differences-nonempty-script/second-call-same-options-dict", **desc})
             except Exception as e:  # noqa
                 st.failures.append({"prop": "C13", "sig": f"C13/second-call-same-options-dict-raises/{real.exc_sig(e)}", **desc})
+        if ign and c["idx"] % 3 == 1 and not c["nsq"]:
+            # one Differ with the ignored attributes configured, first asked about a pair of documents that carry no
+            # attribute at all, then about this pair: the same attributes must still be ignored
+            st.count("ignoring_differ_reused")
+            try:
+                from xmldiff import diff as _diffm
+                from lxml import etree as _et1
+
+                dd_ = _diffm.Differ(**opts)
+                list(dd_.diff(_et1.fromstring("<r><a>one</a><b/></r>"), _et1.fromstring("<r><a>two</a><c/></r>")))
+                second = list(dd_.diff(xt.to_lxml(L), xt.to_lxml(R)))
+                s2 = [a for a in second if type(a).__name__ not in ("InsertNamespace", "DeleteNamespace")]
+                if ignored_named(s2, set(ign)):
+                    st.failures.append({"prop": "C13", "sig": "C13/action-names-ignored-attribute/differ-used-before", **desc})
+                if eq and s2:
+                    st.failures.append({"prop": "C13", "sig": "C13/ignored-only-differences-nonempty-script/differ-used-before", **desc})
+            except Exception as e:  # noqa
+                st.failures.append({"prop": "C13", "sig": f"C13/differ-used-before-raises/{real.exc_sig(e)}", **desc})
         # C04 / C05 / C17 via the strict replay of the real script
         # replay answer: "ok <flags> | <tree>" or "err k Err"
         if m_replay.startswith("err "):
@@ -648,4 +666,81 @@ def run_ns_cases(seed, lo, hi, extra):
                 st.failures.append({"prop": "C02", "sig": "C02/parse-format-differs", **desc})
         except Exception as e:  # noqa
             st.failures.append({"prop": "C02", "sig": f"C02/format-or-parse-raises/{real.exc_sig(e)}", **desc})
+    return st
+
+
+# --------------------------------------------------------------------------
+# C03 through main.diff_files on files whose sizes and modification times coincide
+
+
+def _same_length_variant(r, L):
+    """A document of the same serialised length as L that differs from it: two different adjacent siblings swapped, or one
+    character of a text replaced.  None if L offers neither."""
+    R = L.copy()
+    nodes = list(R.iter())
+    swaps = [(n, i) for n in nodes for i in range(len(n.kids) - 1) if xt.doc_eq(n.kids[i], n.kids[i + 1]) is not None]
+    texts = [(n, a) for n in nodes for a in ("text", "tail") if getattr(n, a) and (a == "text" or n is not R) and any(ch.isalpha() and ch.isascii() for ch in getattr(n, a))]
+    if swaps and (not texts or r.random() < 0.5):
+        n, i = r.choice(swaps)
+        n.kids[i], n.kids[i + 1] = n.kids[i + 1], n.kids[i]
+        return R
+    if texts:
+        n, a = r.choice(texts)
+        t = getattr(n, a)
+        idx = r.choice([i for i, ch in enumerate(t) if ch.isalpha() and ch.isascii()])
+        setattr(n, a, t[:idx] + ("q" if t[idx] != "q" else "z") + t[idx + 1:])
+        return R
+    return None
+
+
+def run_file_cases(seed, lo, hi, extra):
+    import os
+    import shutil
+    import tempfile
+
+    from xmldiff import main
+
+    tier, stream = extra
+    st = core.Stats()
+    d = tempfile.mkdtemp(prefix="verif_c03_")
+    try:
+        for idx in range(lo, hi):
+            r = core.rng_for(seed, "files", idx)
+            L, _, opts = case_for(seed + 5, "main", idx, "quick")
+            R = _same_length_variant(r, L) if r.random() < 0.8 else L.copy()
+            if R is None:
+                continue
+            lx, rx = xt.to_xml(L), xt.to_xml(R)
+            try:
+                etree.fromstring(lx.encode("utf-8")); etree.fromstring(rx.encode("utf-8"))
+            except Exception:  # noqa
+                continue
+            fa, fb = os.path.join(d, f"l{idx}.xml"), os.path.join(d, f"r{idx}.xml")
+            open(fa, "w", encoding="utf-8").write(lx)
+            open(fb, "w", encoding="utf-8").write(rx)
+            if r.random() < 0.8:
+                os.utime(fa, (1700000000, 1700000000))
+                os.utime(fb, (1700000000, 1700000000))
+            st.evaluations += 1
+            st.units["files"] = st.units.get("files", 0) + 1
+            same_size = os.path.getsize(fa) == os.path.getsize(fb)
+            st.count("file_pairs_same_size_and_mtime" if same_size and os.path.getmtime(fa) == os.path.getmtime(fb) else "file_pairs_other")
+            pl, pr = xt.from_lxml(etree.parse(fa).getroot()), xt.from_lxml(etree.parse(fb).getroot())
+            differ = xt.doc_eq(pl, pr) is not None
+            desc = {"stream": "files", "idx": idx, "left": lx, "right": rx, "options": repr(opts), "same_size": same_size}
+            for wsopt in ({}, ):
+                try:
+                    script = main.diff_files(fa, fb, diff_options=dict(opts))
+                except Exception as e:  # noqa
+                    st.failures.append({"prop": "C03", "sig": f"C03/diff-files-raises/{real.exc_sig(e)}", **desc})
+                    continue
+                script = [a for a in script if type(a).__name__ not in ("InsertNamespace", "DeleteNamespace")]
+                if differ and not script:
+                    st.failures.append({"prop": "C03", "sig": "C03/different-documents-empty-script/diff_files", **desc})
+                if (not differ) and script and not opts.get("ignored_attrs"):
+                    st.failures.append({"prop": "C03", "sig": "C03/equal-documents-nonempty-script/diff_files", **desc})
+                if differ:
+                    st.nontriv((lx, rx, repr(opts)))
+    finally:
+        shutil.rmtree(d, ignore_errors=True)
     return st
